@@ -162,7 +162,7 @@ func main() {
 	if tier == "thorough" {
 		// exhaustive blocks in compact form: the model rebuilds graph #mask itself (AcceptCheck.mask_graph)
 		block := func(stream string, n int, loops bool, total uint64) {
-			const B = 1 << 15
+			const B = 1 << 12 // small blocks: the list literal of a block must not be deep enough to overflow coqc's parser stack
 			for start := uint64(0); start < total; start += B {
 				vs := make([]byte, 0, B)
 				ds := make([]byte, 0, B)
